@@ -52,6 +52,26 @@ type gate struct {
 	fate  func(id int, stage string, ord int) (int, time.Duration)
 	auto  map[int]bool
 	onArr func(id int, stage string, ord int) // called (outside the lock) on every held or scripted arrival
+	// cerr: the transport of connection id reports an error from Close() (after having closed), as tls.Conn.Close does
+	// when its close_notify cannot be written; nil = never
+	cerr func(id int) bool
+}
+
+// errCloseNotify is what a transport with the close-error fault returns from Close.
+var errCloseNotify = errors.New("memcluster: close_notify could not be written")
+
+// closeErrEvery installs the close-error fault on a node without a gate: connection id reports an error from
+// Close() when sel(id).
+func closeErrEvery(n *memcluster.Node, sel func(id int) bool) {
+	prev := n.OnConn
+	n.OnConn = func(sc *memcluster.ServerConn) {
+		if sel(sc.ID) {
+			sc.Cli.SetCloseErr(errCloseNotify)
+		}
+		if prev != nil {
+			prev(sc)
+		}
+	}
 }
 
 func newGate(ks string, authRounds int) *gate {
@@ -72,7 +92,11 @@ func (g *gate) install(n *memcluster.Node) {
 	n.OnConn = func(sc *memcluster.ServerConn) {
 		g.mu.Lock()
 		g.get(sc.ID).sc = sc
+		ce := g.cerr
 		g.mu.Unlock()
+		if ce != nil && ce(sc.ID) {
+			sc.Cli.SetCloseErr(errCloseNotify)
+		}
 	}
 	n.FrameHook = g.frameHook
 }
